@@ -152,3 +152,17 @@ func (c *SetCfg) String() string {
 	}
 	return fmt.Sprintf("%s r=%d slots=%s %s/%s ru=%v part=%s claims=%d hist=%d tmpl=%d", c.Name, c.Replicas, sl, c.Policy, c.Strategy, c.HasRU, p, c.Claims, c.HistoryLimit, c.Template)
 }
+
+// TemplateFor returns template version v as it appears in a set built from c:
+// when the set is submitted through the client-side defaulter, so is its pod
+// template, and revisions / pods of that version carry the defaulted content.
+func TemplateFor(c *SetCfg, v int) v1.PodTemplateSpec {
+	t := Template(c.Labels, v)
+	if !c.Defaulted {
+		return t
+	}
+	tmp := &asv1.StatefulSet{}
+	tmp.Spec.Template = t
+	asv1.SetObjectDefaults_StatefulSet(tmp)
+	return tmp.Spec.Template
+}
